@@ -92,7 +92,7 @@ def impl_write(G, uri, inc, newver=None):
 def write_request(tables, uri, inc, newver, fname):
     return [Sym("write_doc"), tables[:4], [uri, inc, T0.isoformat(), "NOW", [] if newver is None else [newver], fname]]
 
-def make_graph(rng, quick, hostile=False, clash=False, shape=None, extra=None):
+def make_graph(rng, quick, hostile=False, clash=False, shape=None, extra=None, sort_first=None):
     if shape == "slash-twin":      # two namespaces whose URIs differ only in a final slash, both with nodes (and so both with a model)
         g = nsgen.gen_graph(rng, n_ns=2, n_nodes=rng.randint(5, 7), hostile=False, dangling=False, value_gen=parseprops.value_gen, slash_twin=True)
         for j_, u_ in enumerate(g.uris):
@@ -219,7 +219,8 @@ def make_graph(rng, quick, hostile=False, clash=False, shape=None, extra=None):
             else:
                 n["attrs"]["DataType"] = (UA, "i", "24")          # BaseDataType: not a built-in name
     # every third graph has a companion file whose name sorts BEFORE the base nodeset: the internal ids of the base nodes then differ from graph to graph
-    fnames = {g.uris[0]: "A%02d_first.xml" % rng.randint(0, 99)} if g.uris and rng.random() < 0.35 else None
+    r_first = rng.random()
+    fnames = {g.uris[0]: "A%02d_first.xml" % rng.randint(0, 99)} if g.uris and (r_first < 0.35 if sort_first is None else sort_first) else None
     if wide_names: fnames = wide_names
     ds = nsgen.serialise(g, rng, value_xml=parseprops.value_xml, file_names=fnames, perm=not wide_names)
     return g, ds
@@ -397,7 +398,7 @@ def run(ctx, prop):
             shape = {0: "skip-middle", 1: "markup-id", 2: "slash-twin", 3: "wide", 5: "attr-only", 6: "hub"}.get(ci % 7)
             # the structural shapes are generated without hostile text, so that what they show is not attributed to the recorded escaping findings
             hostile = rng.random() < 0.4 and shape in (None, "markup-id")
-            g, ds = make_graph(rng, ctx.quick(), hostile=hostile, shape=shape)
+            g, ds = make_graph(rng, ctx.quick(), hostile=hostile, shape=shape, sort_first=(ci % 2 == 1))     # every second graph numbers its base nodes differently
             files = [(n, docs.render(d, rng)) for n, d, _ in ds]
             paths = graphprops.write_files(work, files)
             st, G = graphprops.build(paths)
